@@ -9,6 +9,7 @@ pub mod c12;
 pub mod c14;
 pub mod c15;
 pub mod c13;
+pub mod c16;
 use crate::Ctx;
 pub fn run(prop: &str, ctx: &mut Ctx) -> bool {
     match prop {
@@ -22,6 +23,7 @@ pub fn run(prop: &str, ctx: &mut Ctx) -> bool {
         "C14" => c14::run(ctx),
         "C15" => c15::run(ctx),
         "C13" => c13::run(ctx),
+        "C16" => c16::run(ctx),
         _ => return false,
     }
     true
